@@ -6,6 +6,7 @@ import (
 	"fmt"
 	"math"
 	"os"
+	"path/filepath"
 	"sort"
 	"sync"
 	"sync/atomic"
@@ -16,6 +17,8 @@ import (
 	"github.com/dgraph-io/ristretto/v2/z"
 
 	"verif/h/core"
+	"verif/h/drv"
+	"verif/h/gen"
 	"verif/h/hist"
 	"verif/h/model"
 	"verif/h/sched"
@@ -226,13 +229,90 @@ func checkStream(c *core.Ctx, sig string, h *hist.History, m *model.DB, sr *stre
 	c.Count("stream.runs_explained_by_one_snapshot", 1)
 }
 
+// c25Layout: quiescent databases with few, small tables and non-empty memtables whose key ranges are
+// ordered in every way relative to the tables (Stream splits its work by table and memtable split
+// keys); every visible key must be delivered exactly once with its newest version, for any NumGo.
+func c25Layout(c *core.Ctx, work string, idx int) {
+	r := c.Rand(fmt.Sprintf("c25-layout-%d", idx))
+	dir := filepath.Join(work, fmt.Sprintf("layout%d", idx))
+	_ = os.MkdirAll(dir, 0o755)
+	defer os.RemoveAll(dir)
+	opt, name := drvOptions(dir, []int{0, 2, 3}[idx%3])
+	opt.MemTableSize = 1 << 20
+	opt.BaseTableSize = 64 << 10
+	opt.NumVersionsToKeep = 1
+	db, err := drv.Open(opt, false)
+	if err != nil {
+		c.Inconclusive("open: " + err.Error())
+		return
+	}
+	w := &drv.World{C: c, Sig: "C25|layout", DB: db, Opt: opt, M: model.New(), R: r, Keys: gen.KeySet(r, 60+r.Intn(100), 8)}
+	defer func() { _ = w.DB.Close() }()
+	w.Locality = 5 + r.Intn(30)
+	phases := 2 + r.Intn(4)
+	for p := 0; p < phases; p++ {
+		for i := 0; i < 10+r.Intn(60); i++ {
+			_ = w.RandomCommit(0.1, 0.1)
+		}
+		if p < phases-1 {
+			w.Flush() // moves the window: the next table / the final memtable covers another key range
+			if r.Intn(2) == 0 {
+				w.CompactForce(0, 1)
+			}
+		}
+	}
+	now := uint64(time.Now().Unix())
+	want := map[string]model.Ver{}
+	for _, k := range w.M.Keys() {
+		if v, ok := w.M.Visible(k, ^uint64(0), now); ok {
+			want[k] = v
+		}
+	}
+	var clock atomic.Int64
+	for _, numGo := range []int{1, 2, 8} {
+		sr := runStream(db, &clock, numGo, nil, 0, false)
+		c.Eval(1)
+		info := map[string]any{"options": name, "numGo": numGo, "tables": w.Witness()["tables"], "kvs": len(sr.KVs)}
+		if sr.Err != "" {
+			c.Violation("C25|layout|stream-error", sr.Err, info)
+			continue
+		}
+		seen := map[string]int{}
+		for _, kv := range sr.KVs {
+			seen[kv.Key]++
+			v, ok := want[kv.Key]
+			switch {
+			case !ok:
+				c.Violation("C25|layout|delivered-invisible-key", fmt.Sprintf("key %x@%d delivered but not visible", kv.Key, kv.Version), info)
+			case v.Ts != kv.Version:
+				c.Violation("C25|layout|wrong-version", fmt.Sprintf("key %x delivered at version %d, newest visible is %d", kv.Key, kv.Version, v.Ts), info)
+			}
+		}
+		for k, n := range seen {
+			if n > 1 {
+				c.Violation("C25|layout|duplicate-key", fmt.Sprintf("key %x was delivered %d times by a stream over a quiescent database", k, n), info)
+				break
+			}
+		}
+		for k := range want {
+			if seen[k] == 0 {
+				c.Violation("C25|layout|missing-key", fmt.Sprintf("visible key %x was not delivered", k), info)
+				break
+			}
+		}
+		c.Count("stream.layout_runs", 1)
+		c.Count("stream.kvs_delivered", int64(len(sr.KVs)))
+	}
+	c.Distinct(fmt.Sprintf("layout|%s|phases=%d|tables=%d", name, phases, min(len(db.Tables()), 5)))
+}
+
 // C25 a Stream run emits one consistent snapshot, each key exactly once.
 func C25(c *core.Ctx) {
 	c.Rule("a recorded concurrent history (8 committers, marker-resolved commit timestamps) runs while the main goroutine performs Stream runs with NumGo 1..16, with and " +
 		"without Prefix, ChooseKey and SinceTs, over data spread by tiny memtables/tables so that Ranges yields many splits, with delays at stream.beforeTxn / stream.range; " +
 		"Send records every KV and the maximum number of concurrent Send calls; oracle: per key the set of snapshot timestamps that explain what was delivered (or not " +
 		"delivered) is computed from the final model, and the intersection over all chosen keys with [last commit acknowledged before Orchestrate, inf) must be non-empty; each " +
-		"key at most once; nothing outside Prefix/ChooseKey; distinct = (options, NumGo, prefix/choose/since, commits-overlapped) classes")
+		"key at most once; nothing outside Prefix/ChooseKey; plus quiescent layout cases (few small tables, memtables covering lower/higher/overlapping key ranges) streamed with NumGo 1/2/8: every visible key exactly once at its newest version; distinct = (options, NumGo, prefix/choose/since, commits-overlapped) classes")
 	work := c.WorkDir()
 	defer os.RemoveAll(work)
 	idx := 0
@@ -325,6 +405,9 @@ func C25(c *core.Ctx) {
 			_ = res.DB.Close()
 			_ = os.RemoveAll(res.Dir)
 		}
+	}
+	for i := 0; i < c.Pick(20, 200); i++ {
+		c25Layout(c, work, i)
 	}
 	if c.Counter("stream.commits_overlapping_runs") == 0 {
 		c.Inconclusive("no stream run overlapped a commit")
